@@ -235,6 +235,44 @@ func genCy(t *rapid.T) Case {
 	return c
 }
 
+// ---- queries whose clauses read variables that are declared later, or never
+
+// genScope: two to four MATCH clauses (some behind a WITH) whose property maps and WHEREs read the variable of
+// another clause - an earlier one, a LATER one, or one that no clause declares. Most of these are scoping errors the
+// translator has to reject; the property is that it does so (or translates) in bounded time, every time the same.
+func genScope(t *rapid.T) Case {
+	n := rapid.IntRange(2, 4).Draw(t, "nclauses")
+	vars := []string{"a", "b", "c", "d"}[:n]
+	pool := append(append([]string{}, vars...), "q", "zz")
+	ref := func(label string) string {
+		return rapid.SampledFrom(pool).Draw(t, label) + "." + rapid.SampledFrom([]string{"x", "y", "name", "objectid"}).Draw(t, label+"k")
+	}
+	var sb strings.Builder
+	for i, v := range vars {
+		if i > 0 && rapid.IntRange(0, 4).Draw(t, "with") == 0 {
+			sb.WriteString("with " + strings.Join(vars[:i], ", ") + " ")
+		}
+		sb.WriteString("match (" + v)
+		if rapid.IntRange(0, 2).Draw(t, "kind") == 0 {
+			sb.WriteString(":A")
+		}
+		switch rapid.IntRange(0, 3).Draw(t, "where") {
+		case 0:
+			sb.WriteString(" {x: " + ref("m") + "})")
+		case 1:
+			sb.WriteString(") where " + v + ".x = " + ref("w"))
+		case 2:
+			sb.WriteString(" {x: " + ref("m") + "})-[:R*1..]->(" + v + "2) where " + v + "2.y = " + ref("w2"))
+		default:
+			sb.WriteString(")")
+		}
+		sb.WriteString(" ")
+	}
+	sb.WriteString("return " + rapid.SampledFrom(vars).Draw(t, "ret"))
+	text := sb.String()
+	return textCase(t, "scope", text, parsed(text))
+}
+
 // ---- builder programs
 
 func genBuilder(check string, model bool) func(t *rapid.T) Case {
